@@ -725,6 +725,9 @@ fn register_raw_elements(raw: &InputList, context: &mut TransformerContext) {
 /// This does *not* check that the entire doc is valid, and is intended
 /// to be fast in common cases.
 fn is_real_svg(events: &InputList) -> bool {
+    if events.real_svg {
+        return true;
+    }
     // The first element decides. Only its name and `xmlns` are looked at: whatever
     // else the start tag holds (say a reference to an entity the DOCTYPE declares)
     // is passed through and need not make sense to svgdx.
